@@ -147,9 +147,10 @@ fn case(env: &Env, s: &str, ks: &[usize], labels: &[(String, Vec<u64>)]) -> Valu
     json!({"kind": "reject", "net": env.b.spec, "aeon": env.b.aeon, "text": s, "ks": ks, "labels": labels})
 }
 
-const TOKENS: [&str; 24] = [
+const TOKENS: [&str; 27] = [
     "a", "True", "{x}", "%p%", "~", "EX", "&", "|", "^", "=>", "<=>", "EU", "AU", "EW", "AW", "!{x}:", "@{x}:", "3{y} in %d%:", "(", ")",
     "\\forall {y} in %e%:", "\\bind {x} in %d%:", "V{y} in %e%:", "\\exists {y} in %q%:",
+    "TRUE", "fALSE", "b",
 ];
 const CHARS: [&str; 25] = [
     "a", "E", "X", "A", "U", "3", "V", "x", "_", "{", "}", "(", ")", "~", "&", "=", ">", "<", ":", "!", "@", "%", "\\", " ", "in",
